@@ -90,6 +90,18 @@ def asciiLowerChar (c : Char) : Char :=
 
 def asciiLower (s : Str) : Str := s.map asciiLowerChar
 
+/-- `str.lower()` as far as comparisons with ASCII keywords go: besides A-Z, the only code point whose
+    lower-casing consists of ASCII letters is U+212A KELVIN SIGN -> 'k' (checked by the extractor
+    over all code points) -/
+def kwLowerChar (c : Char) : Char := if c.toNat = 0x212A then 'k' else asciiLowerChar c
+def kwLower (s : Str) : Str := s.map kwLowerChar
+
+/-- `if isinstance(v, str): v = v.lower()` (a `Markup` lower-cases to a plain `str`) -/
+def Val.lowerKw : Val → Val
+  | .text s => .text (kwLower s)
+  | .markup s => .text (kwLower s)
+  | v => v
+
 def dropWhileEnd (p : Char → Bool) (s : Str) : Str := (s.reverse.dropWhile p).reverse
 
 /-- `str.strip()` for a given whitespace predicate -/
